@@ -85,6 +85,34 @@ theorem Acct.close_of {c : Conn H σ}
 theorem Acct.close {c : Conn H σ} (h : Acct c) : Acct c.close :=
   Acct.close_of h.count h.pend
 
+/-! ### the session-teardown step -/
+
+theorem teardownStep_acct (td : Teardown σ) (c : Conn H σ) (r : Resp) (h : Acct c) :
+    Acct (teardownStep td c r) := by
+  unfold teardownStep
+  split
+  · split
+    · exact Acct.close_of (c := { c with w := _ }) h.count h.pend
+    · exact ⟨h.order, h.count, h.pend, h.reg⟩
+  · exact h
+
+theorem teardownStep_consumed (td : Teardown σ) (c : Conn H σ) (r : Resp) :
+    (teardownStep td c r).consumed = c.consumed := by
+  unfold teardownStep
+  split
+  · split <;> rfl
+  · rfl
+
+theorem teardownStep_world (td : Teardown σ) (Q : World σ → Prop) (ht : ∀ w, Q w → Q (td w).1)
+    (c : Conn H σ) (r : Resp) (h : Q c.w) : Q (teardownStep td c r).w := by
+  unfold teardownStep
+  split
+  · have := ht c.w h
+    split
+    · rename_i w' hw; rw [hw] at this; exact this
+    · rename_i w' hw; rw [hw] at this; exact this
+  · exact h
+
 /-- what `_process_events` may rely on after one `_process_one_event` -/
 def StepOk (x : Conn H σ × Step) : Prop :=
   match x.2 with
@@ -149,8 +177,8 @@ theorem processResponse_acct (I : H11 H) (d : Conn H σ) (r : Resp) (id : Nat)
         exact Or.inr (Or.inr (by simpa using ho))
       · exact Or.inr (Or.inl rfl)
 
-theorem processOneEvent_acct (I : H11 H) (disp : Disp σ) (c : Conn H σ) (h : Acct c) :
-    StepOk (processOneEvent I disp c) := by
+theorem processOneEvent_acct (I : H11 H) (disp : Disp σ) (td : Teardown σ) (c : Conn H σ) (h : Acct c) :
+    StepOk (processOneEvent I disp td c) := by
   obtain ⟨ho, hc, hp, hr⟩ := h
   unfold processOneEvent
   split
@@ -190,7 +218,7 @@ theorem processOneEvent_acct (I : H11 H) (disp : Disp σ) (c : Conn H σ) (h : A
         exact key.1
       · rename_i c' hpr
         rw [hpr] at key
-        have hA := key.2 rfl
+        have hA := teardownStep_acct td c' r (key.2 rfl)
         exact ⟨hA.order, hA.count, hA.pend, hA.reg⟩
 
 /-- the accounting invariant after a callback, unless a non-protocol exception escaped -/
@@ -199,11 +227,11 @@ def OutcomeOk (x : Conn H σ × Outcome) : Prop :=
   | .esc _ => True
   | _ => Acct x.1
 
-theorem processEvents_acct (I : H11 H) (disp : Disp σ) :
-    ∀ (n : Nat) (c : Conn H σ), Acct c → OutcomeOk (processEvents I disp n c)
+theorem processEvents_acct (I : H11 H) (disp : Disp σ) (td : Teardown σ) :
+    ∀ (n : Nat) (c : Conn H σ), Acct c → OutcomeOk (processEvents I disp td n c)
   | 0, c, h => h
   | n + 1, c, h => by
-    have hs := processOneEvent_acct I disp c h
+    have hs := processOneEvent_acct I disp td c h
     unfold processEvents
     split
     · trivial
@@ -219,14 +247,14 @@ theorem processEvents_acct (I : H11 H) (disp : Disp σ) :
       split
       · split
         exact Acct.close_of (c := { c1 with h := _ }) hs.count hs.pend
-      · exact processEvents_acct I disp n _ ⟨hs.order, hs.count, hs.pend, hs.reg⟩
+      · exact processEvents_acct I disp td n _ ⟨hs.order, hs.count, hs.pend, hs.reg⟩
 
 /-! ### no exception other than h11.ProtocolError can come out of the pump if dispatch is total -/
 
 def Total (disp : Disp σ) : Prop := ∀ w r b, ∃ x, disp w r b = .ok x
 
-theorem processOneEvent_no_esc (I : H11 H) (disp : Disp σ) (hd : Total disp) (c : Conn H σ) (e : Exn) :
-    (processOneEvent I disp c).2 ≠ .esc e := by
+theorem processOneEvent_no_esc (I : H11 H) (disp : Disp σ) (td : Teardown σ) (hd : Total disp) (c : Conn H σ) (e : Exn) :
+    (processOneEvent I disp td c).2 ≠ .esc e := by
   unfold processOneEvent
   split
   rename_i h' ev _
@@ -240,11 +268,11 @@ theorem processOneEvent_no_esc (I : H11 H) (disp : Disp σ) (hd : Total disp) (c
     split <;> simp
   | _ => simp
 
-theorem processEvents_no_esc (I : H11 H) (disp : Disp σ) (hd : Total disp) :
-    ∀ (n : Nat) (c : Conn H σ) (e : Exn), (processEvents I disp n c).2 ≠ .esc e
+theorem processEvents_no_esc (I : H11 H) (disp : Disp σ) (td : Teardown σ) (hd : Total disp) :
+    ∀ (n : Nat) (c : Conn H σ) (e : Exn), (processEvents I disp td n c).2 ≠ .esc e
   | 0, c, e => by simp [processEvents]
   | n + 1, c, e => by
-    have hs := processOneEvent_no_esc I disp hd c
+    have hs := processOneEvent_no_esc I disp td hd c
     unfold processEvents
     split
     · rename_i c1 e' hpoe
@@ -253,15 +281,15 @@ theorem processEvents_no_esc (I : H11 H) (disp : Disp σ) (hd : Total disp) :
     · simp
     · split
       · split; simp
-      · exact processEvents_no_esc I disp hd n _ e
+      · exact processEvents_no_esc I disp td hd n _ e
 
 theorem dispOk_total (routes : List Route) (P : Params σ) : Total (dispOk routes P) :=
   fun w r b => ⟨dispatch routes P w r b, rfl⟩
 
 /-! ### progress -/
 
-theorem processOneEvent_progress (I : H11 H) (disp : Disp σ) (c c' : Conn H σ) (s : Step)
-    (hx : processOneEvent I disp c = (c', s)) :
+theorem processOneEvent_progress (I : H11 H) (disp : Disp σ) (td : Teardown σ) (c c' : Conn H σ) (s : Step)
+    (hx : processOneEvent I disp td c = (c', s)) :
     (s = .cont false → c'.closing = true ∨ c'.idle = true) ∧
     (s = .cont true → c'.consumed = c.consumed + 1) := by
   unfold processOneEvent at hx
@@ -284,14 +312,17 @@ theorem processOneEvent_progress (I : H11 H) (disp : Disp σ) (c c' : Conn H σ)
       · rename_i c'' hpr
         rw [hpr] at hf
         cases hx
-        simpa using hf.2.2.2.2.2.1
+        have h1 := hf.2.2.2.2.2.1
+        have h2 := teardownStep_consumed td c'' r
+        simp only [] at h1
+        simp [h2, h1]
   | other => cases hx; simp [Conn.close]
   | _ => cases hx; simp
 
 /-- The loop only returns normally when h11 has nothing more to give (NEED_DATA / ConnectionClosed)
     or the connection is closing; running out of fuel means `n` events were consumed. -/
-theorem processEvents_progress (I : H11 H) (disp : Disp σ) :
-    ∀ (n : Nat) (c c' : Conn H σ) (o : Outcome), processEvents I disp n c = (c', o) →
+theorem processEvents_progress (I : H11 H) (disp : Disp σ) (td : Teardown σ) :
+    ∀ (n : Nat) (c c' : Conn H σ) (o : Outcome), processEvents I disp td n c = (c', o) →
       (o = .done → c'.closing = true ∨ c'.idle = true) ∧
       (o = .fuel → c'.consumed = c.consumed + n)
   | 0, c, c', o, hx => by
@@ -304,15 +335,15 @@ theorem processEvents_progress (I : H11 H) (disp : Disp σ) :
     · cases hx; simp [Conn.close]
     · rename_i c1 hpoe
       cases hx
-      have hs := processOneEvent_progress I disp c _ _ hpoe
+      have hs := processOneEvent_progress I disp td c _ _ hpoe
       simpa using hs.1 rfl
     · rename_i c1 hpoe
-      have hs := (processOneEvent_progress I disp c _ _ hpoe).2 rfl
+      have hs := (processOneEvent_progress I disp td c _ _ hpoe).2 rfl
       split at hx
       · split at hx
         cases hx; simp [Conn.close]
       · rename_i h2 _
-        have ih := processEvents_progress I disp n { c1 with h := h2 } c' o hx
+        have ih := processEvents_progress I disp td n { c1 with h := h2 } c' o hx
         refine ⟨ih.1, fun ho => ?_⟩
         rw [ih.2 ho]
         show c1.consumed + n = c.consumed + (n + 1)
@@ -320,9 +351,9 @@ theorem processEvents_progress (I : H11 H) (disp : Disp σ) :
 
 /-! ### isolation: the world changes only through `dispatch`; the registry only through `close` -/
 
-theorem processOneEvent_world (I : H11 H) (disp : Disp σ) (Q : World σ → Prop)
-    (hq : ∀ w r b w' resp, disp w r b = .ok (w', resp) → Q w → Q w') (c : Conn H σ) (h : Q c.w) :
-    Q (processOneEvent I disp c).1.w := by
+theorem processOneEvent_world (I : H11 H) (disp : Disp σ) (td : Teardown σ) (Q : World σ → Prop)
+    (hq : ∀ w r b w' resp, disp w r b = .ok (w', resp) → Q w → Q w') (ht : ∀ w, Q w → Q (td w).1) (c : Conn H σ) (h : Q c.w) :
+    Q (processOneEvent I disp td c).1.w := by
   unfold processOneEvent
   split
   rename_i h' ev _
@@ -344,16 +375,16 @@ theorem processOneEvent_world (I : H11 H) (disp : Disp σ) (Q : World σ → Pro
         rw [hf]; exact hw'
       · rename_i c' hpr
         rw [hpr] at hf
-        show Q c'.w
-        rw [hf]; exact hw'
+        show Q (teardownStep td c' r).w
+        exact teardownStep_world td Q ht c' r (by rw [hf]; exact hw')
   | _ => exact h
 
-theorem processEvents_world (I : H11 H) (disp : Disp σ) (Q : World σ → Prop)
-    (hq : ∀ w r b w' resp, disp w r b = .ok (w', resp) → Q w → Q w') :
-    ∀ (n : Nat) (c : Conn H σ), Q c.w → Q (processEvents I disp n c).1.w
+theorem processEvents_world (I : H11 H) (disp : Disp σ) (td : Teardown σ) (Q : World σ → Prop)
+    (hq : ∀ w r b w' resp, disp w r b = .ok (w', resp) → Q w → Q w') (ht : ∀ w, Q w → Q (td w).1) :
+    ∀ (n : Nat) (c : Conn H σ), Q c.w → Q (processEvents I disp td n c).1.w
   | 0, c, h => h
   | n + 1, c, h => by
-    have hs := processOneEvent_world I disp Q hq c h
+    have hs := processOneEvent_world I disp td Q hq ht c h
     unfold processEvents
     split
     · rename_i c1 e hpoe; rw [hpoe] at hs; exact hs
@@ -363,7 +394,7 @@ theorem processEvents_world (I : H11 H) (disp : Disp σ) (Q : World σ → Prop)
       rw [hpoe] at hs
       split
       · split; exact hs
-      · exact processEvents_world I disp Q hq n _ hs
+      · exact processEvents_world I disp td Q hq ht n _ hs
 
 /-- closing is permanent; the registry entry of a connection is only ever removed, and only
     together with closing -/
@@ -383,8 +414,16 @@ theorem RegStep.trans {a b c : Conn H σ} (h1 : RegStep a b) (h2 : RegStep b c) 
     · exact Or.inr ⟨h2.1 g.1, h.trans g.2⟩
   · exact Or.inr h
 
-theorem processOneEvent_reg (I : H11 H) (disp : Disp σ) (c c' : Conn H σ) (s : Step)
-    (hx : processOneEvent I disp c = (c', s)) : RegStep c c' := by
+theorem teardownStep_reg (td : Teardown σ) (c : Conn H σ) (r : Resp) : RegStep c (teardownStep td c r) := by
+  unfold teardownStep
+  split
+  · split
+    · exact ⟨fun _ => rfl, Or.inr ⟨rfl, rfl⟩⟩
+    · exact ⟨id, Or.inl rfl⟩
+  · exact RegStep.refl c
+
+theorem processOneEvent_reg (I : H11 H) (disp : Disp σ) (td : Teardown σ) (c c' : Conn H σ) (s : Step)
+    (hx : processOneEvent I disp td c = (c', s)) : RegStep c c' := by
   unfold processOneEvent at hx
   split at hx
   rename_i h' ev _
@@ -408,55 +447,57 @@ theorem processOneEvent_reg (I : H11 H) (disp : Disp σ) (c c' : Conn H σ) (s :
       · rename_i c'' hpr
         rw [hpr] at hf
         cases hx
-        exact ⟨fun h => by show c''.closing = true; rw [hf.2.1]; exact h, Or.inl hf.2.2.1⟩
+        have h1 : RegStep c c'' := ⟨fun h => by rw [hf.2.1]; exact h, Or.inl hf.2.2.1⟩
+        have h2 := teardownStep_reg td c'' r
+        exact ⟨fun h => h2.1 (h1.1 h), (h1.trans h2).2⟩
   | other => cases hx; exact ⟨fun _ => rfl, Or.inr ⟨rfl, rfl⟩⟩
   | _ => cases hx; exact ⟨id, Or.inl rfl⟩
 
-theorem processEvents_reg (I : H11 H) (disp : Disp σ) :
-    ∀ (n : Nat) (c : Conn H σ), RegStep c (processEvents I disp n c).1
+theorem processEvents_reg (I : H11 H) (disp : Disp σ) (td : Teardown σ) :
+    ∀ (n : Nat) (c : Conn H σ), RegStep c (processEvents I disp td n c).1
   | 0, c => RegStep.refl c
   | n + 1, c => by
     unfold processEvents
     split
-    · rename_i c1 e hpoe; exact processOneEvent_reg I disp c _ _ hpoe
+    · rename_i c1 e hpoe; exact processOneEvent_reg I disp td c _ _ hpoe
     · rename_i c1 hpoe
-      exact (processOneEvent_reg I disp c _ _ hpoe).trans (RegStep.close c1)
-    · rename_i c1 hpoe; exact processOneEvent_reg I disp c _ _ hpoe
+      exact (processOneEvent_reg I disp td c _ _ hpoe).trans (RegStep.close c1)
+    · rename_i c1 hpoe; exact processOneEvent_reg I disp td c _ _ hpoe
     · rename_i c1 hpoe
-      have h1 := processOneEvent_reg I disp c _ _ hpoe
+      have h1 := processOneEvent_reg I disp td c _ _ hpoe
       split
       · split
         rename_i h2 _ _ h3 _ _
         exact h1.trans (RegStep.close { c1 with h := h3 })
       · rename_i h2 _
-        exact h1.trans (processEvents_reg I disp n { c1 with h := h2 })
+        exact h1.trans (processEvents_reg I disp td n { c1 with h := h2 })
 
 /-! ### the callbacks -/
 
-theorem dataReceived_acct (I : H11 H) (disp : Disp σ) (dec : Bytes → Option Bytes) (n : Nat)
-    (c : Conn H σ) (d : Bytes) (h : Acct c) : OutcomeOk (dataReceived I disp dec n c d) := by
+theorem dataReceived_acct (I : H11 H) (disp : Disp σ) (td : Teardown σ) (dec : Bytes → Option Bytes) (n : Nat)
+    (c : Conn H σ) (d : Bytes) (h : Acct c) : OutcomeOk (dataReceived I disp td dec n c d) := by
   unfold dataReceived
   split
   · split
     · exact h.close
     · split
       · exact h
-      · exact processEvents_acct I disp n _ ⟨h.order, h.count, h.pend, h.reg⟩
-  · exact processEvents_acct I disp n _ ⟨h.order, h.count, h.pend, h.reg⟩
+      · exact processEvents_acct I disp td n _ ⟨h.order, h.count, h.pend, h.reg⟩
+  · exact processEvents_acct I disp td n _ ⟨h.order, h.count, h.pend, h.reg⟩
 
-theorem dataReceived_no_esc (I : H11 H) (disp : Disp σ) (hd : Total disp) (dec : Bytes → Option Bytes)
-    (n : Nat) (c : Conn H σ) (d : Bytes) (e : Exn) : (dataReceived I disp dec n c d).2 ≠ .esc e := by
+theorem dataReceived_no_esc (I : H11 H) (disp : Disp σ) (td : Teardown σ) (hd : Total disp) (dec : Bytes → Option Bytes)
+    (n : Nat) (c : Conn H σ) (d : Bytes) (e : Exn) : (dataReceived I disp td dec n c d).2 ≠ .esc e := by
   unfold dataReceived
   split
   · split
     · simp
     · split
       · simp
-      · exact processEvents_no_esc I disp hd n _ e
-  · exact processEvents_no_esc I disp hd n _ e
+      · exact processEvents_no_esc I disp td hd n _ e
+  · exact processEvents_no_esc I disp td hd n _ e
 
-theorem dataReceived_reg (I : H11 H) (disp : Disp σ) (dec : Bytes → Option Bytes) (n : Nat)
-    (c : Conn H σ) (d : Bytes) : RegStep c (dataReceived I disp dec n c d).1 := by
+theorem dataReceived_reg (I : H11 H) (disp : Disp σ) (td : Teardown σ) (dec : Bytes → Option Bytes) (n : Nat)
+    (c : Conn H σ) (d : Bytes) : RegStep c (dataReceived I disp td dec n c d).1 := by
   unfold dataReceived
   split
   · split
@@ -464,23 +505,23 @@ theorem dataReceived_reg (I : H11 H) (disp : Disp σ) (dec : Bytes → Option By
     · rename_i plain _
       split
       · exact RegStep.refl c
-      · have key := processEvents_reg I disp n { c with h := I.receiveData c.h plain }
+      · have key := processEvents_reg I disp td n { c with h := I.receiveData c.h plain }
         exact ⟨key.1, key.2⟩
-  · have key := processEvents_reg I disp n { c with h := I.receiveData c.h d }
+  · have key := processEvents_reg I disp td n { c with h := I.receiveData c.h d }
     exact ⟨key.1, key.2⟩
 
-theorem dataReceived_world (I : H11 H) (disp : Disp σ) (Q : World σ → Prop)
-    (hq : ∀ w r b w' resp, disp w r b = .ok (w', resp) → Q w → Q w')
+theorem dataReceived_world (I : H11 H) (disp : Disp σ) (td : Teardown σ) (Q : World σ → Prop)
+    (hq : ∀ w r b w' resp, disp w r b = .ok (w', resp) → Q w → Q w') (ht : ∀ w, Q w → Q (td w).1)
     (dec : Bytes → Option Bytes) (n : Nat) (c : Conn H σ) (d : Bytes) (h : Q c.w) :
-    Q (dataReceived I disp dec n c d).1.w := by
+    Q (dataReceived I disp td dec n c d).1.w := by
   unfold dataReceived
   split
   · split
     · exact h
     · split
       · exact h
-      · exact processEvents_world I disp Q hq n _ h
-  · exact processEvents_world I disp Q hq n _ h
+      · exact processEvents_world I disp td Q hq ht n _ h
+  · exact processEvents_world I disp td Q hq ht n _ h
 
 /-- The delayed response: if `h11.send` accepts it, the accounting invariant is kept. -/
 theorem responseReady_acct (I : H11 H) (c : Conn H σ) (res : Except Exn Bytes) (h : Acct c)
@@ -522,22 +563,22 @@ theorem connectionLost_acct (onLost : World σ → World σ) (c : Conn H σ) (h 
 
 /-- Whatever sequence of callbacks a connection object lives through: unless a callback let an
     exception escape, the accounting invariant holds at the end. -/
-theorem runCallbacks_acct (I : H11 H) (disp : Disp σ) (onLost : World σ → World σ) :
+theorem runCallbacks_acct (I : H11 H) (disp : Disp σ) (td : Teardown σ) (onLost : World σ → World σ) :
     ∀ (cbs : List Callback) (c : Conn H σ), Acct c →
-      (∀ o ∈ (runCallbacks I disp onLost c cbs).2, ∀ e, o ≠ .esc e) →
-      Acct (runCallbacks I disp onLost c cbs).1
+      (∀ o ∈ (runCallbacks I disp td onLost c cbs).2, ∀ e, o ≠ .esc e) →
+      Acct (runCallbacks I disp td onLost c cbs).1
   | [], c, h, _ => h
   | cb :: rest, c, h, hne => by
     simp only [runCallbacks] at hne ⊢
-    have ho : ∀ e, (runCallback I disp onLost c cb).2 ≠ .esc e := fun e => hne _ (by simp) e
-    have hA : Acct (runCallback I disp onLost c cb).1 := by
+    have ho : ∀ e, (runCallback I disp td onLost c cb).2 ≠ .esc e := fun e => hne _ (by simp) e
+    have hA : Acct (runCallback I disp td onLost c cb).1 := by
       cases cb with
       | data d dec fuel =>
-        have := dataReceived_acct I disp dec fuel c d h
+        have := dataReceived_acct I disp td dec fuel c d h
         unfold OutcomeOk at this
         simp only [runCallback] at ho ⊢
         revert this ho
-        cases (dataReceived I disp dec fuel c d).2 <;> simp
+        cases (dataReceived I disp td dec fuel c d).2 <;> simp
       | ready res =>
         simp only [runCallback] at ho ⊢
         have := responseReady_acct I c res h
@@ -546,6 +587,6 @@ theorem runCallbacks_acct (I : H11 H) (disp : Disp σ) (onLost : World σ → Wo
         obtain ⟨c', b⟩ := x
         cases b <;> simp
       | lost => exact connectionLost_acct onLost c h
-    exact runCallbacks_acct I disp onLost rest _ hA (fun o hm e => hne o (by simp [hm]) e)
+    exact runCallbacks_acct I disp td onLost rest _ hA (fun o hm e => hne o (by simp [hm]) e)
 
 end Hap.Http
